@@ -261,7 +261,16 @@ func runCeremony(n, t, nv int, dkgCtx string, sched uint64) *ceremony {
 		wg.Add(1)
 		go func() {
 			defer wg.Done()
-			sh, err := dkg.VerifRunFrostParallel(ctx, tp, uint32(nv), uint32(n), uint32(t), id, dkgCtx)
+			var sh []share.Share
+			var err error
+			func() {
+				defer func() {
+					if p := recover(); p != nil {
+						err = fmt.Errorf("panic: %v", p)
+					}
+				}()
+				sh, err = dkg.VerifRunFrostParallel(ctx, tp, uint32(nv), uint32(n), uint32(t), id, dkgCtx)
+			}()
 			tp.mu.Lock()
 			tp.nodes[id].shares, tp.nodes[id].err = sh, err
 			tp.mu.Unlock()
